@@ -21,7 +21,7 @@ func StdPrograms(tier string) []*Schema {
 		ps = append(ps, ProgMaps(k))
 	}
 	// 2^29-1 in both tiers: field numbers >= 2^28 are the ones whose 5-byte tag does not fit an int32 once shifted
-	ps = append(ps, ProgNested(), ProgWide(), ProgSameName(), ProgBigID(2048), ProgBigID(262144), ProgBigID(1<<29-1))
+	ps = append(ps, ProgNested(), ProgWide(), ProgSameName(), ProgCongruent(), ProgBigID(2048), ProgBigID(262144), ProgBigID(1<<29-1))
 	if tier == "thorough" {
 		ps = append(ps, ProgBigID(1<<25), ProgBigID(1<<28))
 	}
@@ -101,6 +101,25 @@ func StdMessages(s *Schema, tier string) []NV {
 			}
 		}
 		add("wide-all", all)
+	case s.ID == "congruent":
+		f := func(n string) *Field { return root.ByName(n) }
+		strs := func(fd *Field, ss ...string) *Val {
+			l := ListOf(fd)
+			for _, x := range ss {
+				l.L = append(l.L, Str(x))
+			}
+			return l
+		}
+		sub := func(a int64) *Val { return MsgVal(f("sm").Msg).Set(f("sm").Msg.ByName("a"), Int(KInt32, a)) }
+		rs := strs(f("rs"), "a", "b")
+		m := MapOf(f("m")).Put(Str("k"), Int(KInt32, 1)).Put(Str("j"), Int(KInt32, 2))
+		rm := ListOf(f("rm"), sub(1), sub(2))
+		add("string-list-then-string", MsgVal(root).Set(f("rs"), rs).Set(f("s"), Str("hello")))
+		add("map-then-bytes", MsgVal(root).Set(f("m"), m).Set(f("b"), Bytes([]byte{0x0a, 1, 'x', 0x10, 7})))
+		add("message-list-then-message", MsgVal(root).Set(f("rm"), rm).Set(f("sm"), sub(3)))
+		add("string-list-then-string-list", MsgVal(root).Set(f("rs"), rs).Set(f("rs2"), strs(f("rs2"), "c")))
+		add("all", MsgVal(root).Set(f("lo"), Int(KInt32, 5)).Set(f("rs"), rs).Set(f("m"), m).Set(f("rm"), rm).Set(f("s"), Str("t")).
+			Set(f("b"), Bytes([]byte{1})).Set(f("sm"), sub(4)).Set(f("rs2"), strs(f("rs2"), "d", "e")))
 	case s.ID == "samename":
 		order, refund := root.ByName("order"), root.ByName("refund")
 		oi, ri := order.Msg.ByName("item"), refund.Msg.ByName("item")
